@@ -74,6 +74,9 @@ def run(run):
             targs.append([rng.choice(["k", "x"]), rng.choice(plain)])
         cases.append({"kind": "expandtemplate", "ttitle": rng.choice(["s", "b", "a", "nosuch"]), "targs": targs})
         if rng.random() < 0.3:
+            cases.append({"kind": "twice", "tpl": rng.choice(["ppp", "viaarg", "viaet", "w1", "w2"]),
+                          "vals": [rng.choice(["a", "b", "c d", "7"]) for _ in range(rng.randint(2, 4))]})
+        if rng.random() < 0.3:
             cases.append({"kind": "reenter", "how": rng.choice(["et", "pp", "pp1", "pet"]), "a1": rng.choice(["in", "x y", "7", "go2"]),
                           "a2": rng.choice(["v", "", "w w"])})
         pn, vecs = rng.choice(PFS)
@@ -115,6 +118,10 @@ def run(run):
             if r["lua"] != head + r["direct"]:
                 run.property_failure("c08:reenter-differs:" + c["how"], "a template re-entered from its own module gives %r, "
                                      "the outer part %r followed by the plain inner call gives %r" % (r["lua"], head, r["direct"]), c)
+        elif c["kind"] == "twice":
+            if r["lua"] != r["direct"]:
+                run.property_failure("c08:repeated-use-differs:" + c["tpl"], "%s used with %r on one page gives %r, one use per page "
+                                     "gives %r" % (c["tpl"], c["vals"], r["lua"], r["direct"]), c)
         elif c["kind"] in ("preprocess", "callpf"):
             if r["lua"] != r["direct"]:
                 run.property_failure("c08:%s-differs" % c["kind"], "Lua gives %r, wikitext gives %r" % (r["lua"], r["direct"]), c)
